@@ -376,17 +376,11 @@ fn c02_t_fold_l3_k222() {
     frame_fold::<3>([2, 2, 2]);
 }
 
-/// U4: the per-frame cel table makes the order of cel chunks irrelevant.
-#[kani::proof]
-#[kani::unwind(8)]
-#[kani::stub(alloc::fmt::format, crate::vklib::empty_format)]
-fn c02_q_cel_storage_order() {
-    // three cels for layers {0,1,2}; every insertion order (enumerated concretely: a symbolic layer index would
-    // make the table resize symbolic-length), symbolic cel contents
-    const PERMS: [[u8; 3]; 6] = [[0, 1, 2], [0, 2, 1], [1, 0, 2], [1, 2, 0], [2, 0, 1], [2, 1, 0]];
+/// U4: the per-frame cel table makes the order of cel chunks irrelevant: three cels for layers {0,1,2} inserted in
+/// the given order (concrete per harness: a symbolic layer index would make the table resize symbolic-length),
+/// symbolic cel contents; frame_cels yields them in ascending layer order.
+fn storage_order(order: [u8; 3]) {
     let marks: [i16; 3] = kani::any();
-    for pi in 0..6 {
-    let order = PERMS[pi];
     let mut cels: CelsData<u8> = CelsData::new(1);
     for k in 0..3 {
         let l = order[k] as usize;
@@ -395,7 +389,9 @@ fn c02_q_cel_storage_order() {
             content: CelContent::Linked(0),
             user_data: None,
         };
-        assert!(cels.add_cel(0, c).is_ok());
+        let r = cels.add_cel(0, c);
+        assert!(r.is_ok());
+        core::mem::forget(r);
     }
     let mut n = 0;
     for (lid, c) in cels.frame_cels(0) {
@@ -404,7 +400,22 @@ fn c02_q_cel_storage_order() {
         n += 1;
     }
     assert!(n == 3);
-    core::mem::forget(cels);
-    }
     kani::cover!(marks[0] == 7 && marks[2] == -7);
+    core::mem::forget(cels);
 }
+macro_rules! order_harness {
+    ($name:ident, $o:expr) => {
+        #[kani::proof]
+        #[kani::unwind(6)]
+        #[kani::stub(alloc::fmt::format, crate::vklib::empty_format)]
+        fn $name() {
+            storage_order($o);
+        }
+    };
+}
+order_harness!(c02_q_cel_order_201, [2, 0, 1]);
+order_harness!(c02_q_cel_order_120, [1, 2, 0]);
+order_harness!(c02_t_cel_order_012, [0, 1, 2]);
+order_harness!(c02_t_cel_order_021, [0, 2, 1]);
+order_harness!(c02_t_cel_order_102, [1, 0, 2]);
+order_harness!(c02_t_cel_order_210, [2, 1, 0]);
